@@ -59,5 +59,15 @@ func targeted() []Spec {
 		{Name: "f1.sysl", Blocks: []Block{{App: "A0", Items: []interface{}{EpD{Name: "E5", Annos: []Anno{{Name: "late", Val: "x"}}},
 			Rest{Path: "/r", Name: "/r", Methods: []Method{{Verb: "PATCH", Annos: []Anno{{Name: "late2", Val: "y"}}}}}}}}},
 	}}
-	return []Spec{one, two, three, four}
+	// a cross edge to a later sibling: main imports a, b; a imports b, c; one element re-opened in every file. The files
+	// are compiled main, a, b, c (depth-first preorder); an order that marks files when they are queued gives main, a, c, b
+	shareT := func(f string) TypeD { return TypeD{Name: "T0", Fields: []Field{{Name: "f0", Type: "int"}, {Name: f, Type: "string"}}} }
+	shareE := func(w string) EpD { return EpD{Name: "E0", Annos: []Anno{{Name: "n804", Form: fNested, Nested: [][]string{{"a", "b"}, {"c"}}}}, Stmts: txt(w)} }
+	five := Spec{Files: []FileD{
+		{Name: "f0.sysl", Imports: []string{"f1", "f2"}, ImpIdx: []int{1, 2}, Blocks: []Block{{App: "A0", Items: []interface{}{Anno{Name: "n804", Form: fNested, Nested: [][]string{{"x"}}}, shareT("f1"), shareE("work")}}}},
+		{Name: "f1.sysl", Imports: []string{"f2", "f3"}, ImpIdx: []int{2, 3}, Blocks: []Block{{App: "A0", Items: []interface{}{Anno{Name: "n804", Form: fNested, Nested: [][]string{{"y"}, {"z"}}}, shareT("f2"), shareE("ping")}}}},
+		{Name: "f2.sysl", Blocks: []Block{{App: "A0", Items: []interface{}{Anno{Name: "n804", Form: fNested, Nested: [][]string{{"é"}}}, shareT("f3"), shareE("log")}}}},
+		{Name: "f3.sysl", Blocks: []Block{{App: "A0", Items: []interface{}{Anno{Name: "n806", Form: fMulti, Lines: []string{"doc é", "more"}}, Anno{Name: "n805", Form: fEmptyArr}, shareT("f4"), shareE("validate")}}}},
+	}}
+	return []Spec{one, two, three, four, five}
 }
